@@ -15,6 +15,9 @@
 #include <shark/ObjectiveFunctions/Loss/DiscreteLoss.h>
 #include <shark/ObjectiveFunctions/Loss/ZeroOneLoss.h>
 #include <shark/Models/LinearModel.h>
+#include <shark/Models/NeuronLayers.h>
+#include <shark/Core/Random.h>
+#include <cmath>
 #include <shark/Data/Dataset.h>
 #include <shark/Data/WeightedDataset.h>
 #include <omp.h>
@@ -109,13 +112,23 @@ template<class T> Data<T> mkData(std::vector<T> const& v, std::vector<std::size_
 	return d;
 }
 
-// ---- ErrorFunction (plain / weighted / regularised) with a LinearModel
+// ---- ErrorFunction (plain / weighted / regularised / mini-batch) with a LinearModel
+typedef AbstractModel<RealVector, RealVector, RealVector> ModelT;
+static std::unique_ptr<ModelT> makeModel(std::string const& mtype, std::size_t nin, std::size_t nout) {
+	if (mtype == "lin") return std::unique_ptr<ModelT>(new LinearModel<>(nin, nout, true));
+	if (mtype == "linno") return std::unique_ptr<ModelT>(new LinearModel<>(nin, nout, false));
+	if (mtype == "tanh") return std::unique_ptr<ModelT>(new LinearModel<RealVector, TanhNeuron>(nin, nout, true));
+	if (mtype == "logistic") return std::unique_ptr<ModelT>(new LinearModel<RealVector, LogisticNeuron>(nin, nout, true));
+	throw std::runtime_error("unknown model " + mtype);
+}
+
 template<class L>
 std::string runEF(char kind, AbstractLoss<L, RealVector>& loss, std::vector<RealVector> const& in, std::vector<L> const& lab,
                   std::vector<std::size_t> const& sz, DV const& params, std::size_t nin, std::size_t nout,
-                  DV const& weights, std::string const& reg, double lam, DV const& mask) {
+                  DV const& weights, std::string const& reg, double lam, DV const& mask, std::string const& mtype, bool fd, long seed) {
 	std::ostringstream o;
-	LinearModel<> model(nin, nout, true);
+	std::unique_ptr<ModelT> mp = makeModel(mtype, nin, nout);
+	ModelT& model = *mp;
 	RealVector p(params.size()); for (std::size_t i = 0; i != params.size(); ++i) p(i) = params[i];
 	if (p.size() != model.numberOfParameters()) throw std::runtime_error("parameter count");
 	LabeledData<RealVector, L> ds(mkData(in, sz), mkData(lab, sz));
@@ -123,18 +136,43 @@ std::string runEF(char kind, AbstractLoss<L, RealVector>& loss, std::vector<Real
 	RealVector mk(mask.size()); for (std::size_t i = 0; i != mask.size(); ++i) mk(i) = mask[i];
 	if (mask.size()) { r1.setMask(mk); r2.setMask(mk); }
 	std::unique_ptr<ErrorFunction<> > ef;
-	if (kind == 'W') {
+	bool weighted = !weights.empty();
+	if (weighted) {
 		WeightedLabeledData<RealVector, L> wds(ds, mkData(weights, sz));
 		ef.reset(new ErrorFunction<>(wds, &model, &loss));
-	} else ef.reset(new ErrorFunction<>(ds, &model, &loss));
+	} else ef.reset(new ErrorFunction<>(ds, &model, &loss, kind == 'B'));
 	if (kind == 'R') {
 		if (reg == "one") ef->setRegularizer(lam, &r1); else ef->setRegularizer(lam, &r2);
 	}
+	if (kind == 'B') random::globalRng.seed((unsigned)seed);
 	ef->init();
 	double v = ef->eval(p);
 	RealVector g;
 	double dv = ef->evalDerivative(p, g);
 	o << "v=" << hx(v) << " dv=" << hx(dv) << " g=" << hv(g);
+	if (kind == 'B') return o.str();
+	// brute force: loss of every element through the single-element interface on the model's single-input prediction
+	model.setParameterVector(p);
+	std::string el;
+	for (std::size_t i = 0; i != in.size(); ++i) {
+		RealVector out = model(in[i]);
+		if (i) el += ",";
+		el += hx(loss.eval(lab[i], out));
+	}
+	o << " el=" << (el.empty() ? "-" : el);
+	if (fd) {
+		std::string f1, f2;
+		for (std::size_t j = 0; j != p.size(); ++j) {
+			for (int pass = 0; pass != 2; ++pass) {
+				double h = (pass == 0 ? std::ldexp(1.0, -17) : std::ldexp(1.0, -20)) * std::max(1.0, std::abs(p(j)));
+				RealVector a = p, b = p; a(j) += h; b(j) -= h;
+				double d = (ef->eval(a) - ef->eval(b)) / ((a(j) - p(j)) + (p(j) - b(j)));
+				std::string& f = pass == 0 ? f1 : f2;
+				if (j) f += ","; f += hx(d);
+			}
+		}
+		o << " fd=" << (f1.empty() ? "-" : f1) << " fd2=" << (f2.empty() ? "-" : f2);
+	}
 	if (kind == 'R') {
 		RealVector rg; double rv, rdv;
 		if (reg == "one") { rv = r1.eval(p); rdv = r1.evalDerivative(p, rg); } else { rv = r2.eval(p); rdv = r2.evalDerivative(p, rg); }
@@ -143,6 +181,27 @@ std::string runEF(char kind, AbstractLoss<L, RealVector>& loss, std::vector<Real
 		RealVector pg; double pv = plain.eval(p); double pdv = plain.evalDerivative(p, pg);
 		o << " rv=" << hx(rv) << " rdv=" << hx(rdv) << " rg=" << hv(rg) << " pv=" << hx(pv) << " pdv=" << hx(pdv) << " pg=" << hv(pg);
 	}
+	return o.str();
+}
+
+// ---- finite differences of a loss w.r.t. the prediction (batch interface)
+template<class L, class BL>
+std::string runLossFD(AbstractLoss<L, RealVector>& loss, BL const& labels, RealMatrix const& preds) {
+	std::ostringstream o;
+	RealMatrix grad;
+	double dv = loss.evalDerivative(labels, preds, grad);
+	o << "v=" << hx(loss.eval(labels, preds)) << " dv=" << hx(dv) << " g=" << hm(grad);
+	std::string f1, f2;
+	for (std::size_t i = 0; i != preds.size1(); ++i) for (std::size_t j = 0; j != preds.size2(); ++j) {
+		for (int pass = 0; pass != 2; ++pass) {
+			double h = (pass == 0 ? std::ldexp(1.0, -17) : std::ldexp(1.0, -20)) * std::max(1.0, std::abs(preds(i, j)));
+			RealMatrix a = preds, b = preds; a(i, j) += h; b(i, j) -= h;
+			double d = (loss.eval(labels, a) - loss.eval(labels, b)) / ((a(i, j) - preds(i, j)) + (preds(i, j) - b(i, j)));
+			std::string& f = pass == 0 ? f1 : f2;
+			if (i + j) f += ","; f += hx(d);
+		}
+	}
+	o << " fd=" << (f1.empty() ? "-" : f1) << " fd2=" << (f2.empty() ? "-" : f2);
 	return o.str();
 }
 
@@ -163,6 +222,25 @@ static std::string handle(std::string const& line) {
 		return o.str();
 	}
 	std::string name = s[0][1]; double param = num(s[0][2]);
+	if (kind == 'D') {   // D name param dim | labels | preds : loss gradient vs central differences
+		std::size_t dim = std::stoul(s[0][3]);
+		DV labs = nums(s[1]), preds = nums(s[2]);
+		LossBox b = makeLoss(name, param, DV());
+		std::size_t n = preds.size() / dim;
+		if (b.vv) o << runLossFD(*b.vv, mat(labs, n, dim), mat(preds, n, dim));
+		else if (b.cv) o << runLossFD(*b.cv, uvec(labs), mat(preds, n, dim));
+		else throw std::runtime_error("loss has no derivative");
+		return o.str();
+	}
+	if (kind == 'Z') {   // Z thr dim | sizes | labels | preds | weights : ZeroOneLoss<unsigned,RealVector>::eval(Data,Data,weights)
+		std::size_t dim = std::stoul(s[0][3]);
+		auto sz = sizes(s[1]); DV labs = nums(s[2]), preds = nums(s[3]), w = nums(s[4]);
+		ZeroOneLoss<unsigned int, RealVector> zl(param);
+		RealVector wv(w.size()); for (std::size_t i = 0; i != w.size(); ++i) wv(i) = w[i];
+		double z = zl.eval(mkData(uints(labs), sz), mkData(rows(preds, labs.size(), dim), sz), wv);
+		o << "z=" << hx(z);
+		return o.str();
+	}
 	if (kind == 'L' || kind == 'M') {
 		std::size_t dim = std::stoul(s[0][3]);
 		std::size_t T = (kind == 'M') ? std::stoul(s[0][4]) : 1;
@@ -185,16 +263,24 @@ static std::string handle(std::string const& line) {
 		}
 		return o.str();
 	}
-	if (kind == 'E' || kind == 'W' || kind == 'R') {
+	if (kind == 'E' || kind == 'W' || kind == 'R' || kind == 'F' || kind == 'B') {
+		// E name param T nin nout             | sizes | params | inputs | labels
+		// W name param T nin nout             | sizes | params | inputs | labels | weights
+		// R name param T nin nout reg lam     | sizes | params | inputs | labels | mask
+		// F name param T nin nout mtype       | sizes | params | inputs | labels [| weights]   (finite differences)
+		// B name param seed nin nout          | sizes | params | inputs | labels               (mini-batch mode)
 		std::size_t T = std::stoul(s[0][3]), nin = std::stoul(s[0][4]), nout = std::stoul(s[0][5]);
 		std::string reg = kind == 'R' ? s[0][6] : ""; double lam = kind == 'R' ? num(s[0][7]) : 0;
+		std::string mtype = kind == 'F' ? s[0][6] : "lin";
 		auto sz = sizes(s[1]); DV params = nums(s[2]), in = nums(s[3]), labs = nums(s[4]);
 		DV extra; if (s.size() > 5) extra = nums(s[5]);
-		omp_set_num_threads((int)T);
+		if (kind != 'B') omp_set_num_threads((int)T);
 		LossBox b = makeLoss(name, param, DV());
 		std::size_t n = in.size() / nin;
-		if (b.vv) o << runEF<RealVector>(kind, *b.vv, rows(in, n, nin), rows(labs, n, nout), sz, params, nin, nout, kind == 'W' ? extra : DV(), reg, lam, kind == 'R' ? extra : DV());
-		else if (b.cv) o << runEF<unsigned int>(kind, *b.cv, rows(in, n, nin), uints(labs), sz, params, nin, nout, kind == 'W' ? extra : DV(), reg, lam, kind == 'R' ? extra : DV());
+		DV weights = (kind == 'W' || kind == 'F') ? extra : DV();
+		DV mask = kind == 'R' ? extra : DV();
+		if (b.vv) o << runEF<RealVector>(kind, *b.vv, rows(in, n, nin), rows(labs, n, labs.size() / (n ? n : 1)), sz, params, nin, nout, weights, reg, lam, mask, mtype, kind == 'F', (long)T);
+		else if (b.cv) o << runEF<unsigned int>(kind, *b.cv, rows(in, n, nin), uints(labs), sz, params, nin, nout, weights, reg, lam, mask, mtype, kind == 'F', (long)T);
 		else throw std::runtime_error("loss not usable with a model");
 		return o.str();
 	}
